@@ -200,7 +200,7 @@ pub fn main(args: &Args) -> i32 {
         }
     }
     // (C) structured operand layouts
-    let per = if args.thorough { 6000 } else { 1200 };
+    let per = if args.thorough { 20000 } else { 1200 };
     for i in 0..per {
         n += 1;
         if n % args.shard.1 != args.shard.0 {
@@ -510,7 +510,7 @@ pub fn main_stateread(args: &Args) -> i32 {
         }
     }
     // random requests at larger sizes through the faithful map state
-    let count = if args.thorough { 20000 } else { 2500 };
+    let count = if args.thorough { 60000 } else { 2500 };
     for i in 0..count {
         n += 1;
         if n % args.shard.1 != args.shard.0 {
